@@ -451,6 +451,18 @@ def gen_namespace(rng, nsname, thorough, deps, want_blocks=True, main=True, gobj
                 e2 = ('(element-type %s) ' % et) if et and rng.random() < 0.85 else ''
                 block(['%s:' % fn['name'], '@self: the object', '@filter: %s(nullable): a filter' % e1, '', 'The index.', '',
                        'Returns: %s(transfer %s): the index' % (e2, rng.choice(['none', 'container', 'full']))], fn['file'])
+    if want_blocks and rng.random() < 0.35:
+        # one (type ...) string on values whose C types differ: each keeps its own c:type
+        tstr = rng.choice(['filename', 'utf8', '%s.%s' % (nsname, rng.choice(records))])
+        if tstr in ('filename', 'utf8'):
+            ctypes_ = [STRING_OUT, ['ptr', ['named', 'gchar']], STRING_IN, ['ptr', ['const', ['named', 'gchar']]]]
+        else:
+            ctypes_ = [GPOINTER, ['ptr', ['named', P + tstr.split('.')[1]]], ['ptr', ['const', ['void']]]]
+        for i, ct in enumerate(rng.sample(ctypes_, rng.randint(2, len(ctypes_)))):
+            fn = D({'k': 'function', 'name': '%s_peek_thing%d' % (p, i), 'ret': ct,
+                    'params': [['where', rng.choice(ctypes_)]]}, rng.choice(apis))
+            block(['%s:' % fn['name'], '@where: (type %s): where to look' % tstr, '', 'Peeks.', '',
+                   'Returns: (type %s) (transfer none): what was found' % tstr], fn['file'])
     for r in copyfree:
         sr = snake(r)
         RP = ['ptr', ['named', P + r]]
@@ -814,7 +826,12 @@ def gen_namespace(rng, nsname, thorough, deps, want_blocks=True, main=True, gobj
         for d in [x for x in decls if x['k'] == 'typedef_enum' and (not x['name'].endswith('Error') or x['name'] in registered_errors)]:
             if rng.random() < 0.6 or x_is_error(d):
                 fn = get_type_fn(snake(d['name'][len(P):]))
-                mem = ''.join('<member name="%s" nick="%s" value="%d"/>' % (i, i.split('_')[-1].lower(), v) for i, v in d['members'])
+                listed = d['members']
+                if len(listed) > 2 and rng.random() < 0.4:
+                    # the registered value table leaves out some enumerators of the header
+                    # (FIRST/LAST aliases, counters): only registered ones are described
+                    listed = [m for m in listed if rng.random() < 0.5] or listed[:1]
+                mem = ''.join('<member name="%s" nick="%s" value="%d"/>' % (i, i.split('_')[-1].lower(), v) for i, v in listed)
                 dump[fn] = '<%s name="%s" get-type="%s">%s</%s>' % ('flags' if d['flags'] else 'enum', d['name'], fn, mem,
                                                                     'flags' if d['flags'] else 'enum')
 
